@@ -346,6 +346,37 @@ fn make_backend(kind: &str) -> (VfsPath, Box<dyn Fn() -> Option<String>>) {
             let l2 = lower.clone();
             (OverlayFS::new(&[upper, lower]).into(), Box::new(move || { if l2.read_dir().unwrap().count() != 0 { Some("lower layer is no longer empty".into()) } else { None } }))
         }
+        // ---- stacked adapters (C01 / C07 / C09 "any stacking"): every layer below is empty, so the plain tree semantics must hold
+        "altroot.altroot" => {
+            let inner: VfsPath = MemoryFS::new().into();
+            inner.join("r").unwrap().create_dir().unwrap(); inner.join("r/s").unwrap().create_dir().unwrap();
+            let a1: VfsPath = AltrootFS::new(inner.join("r").unwrap()).into();
+            (AltrootFS::new(a1.join("s").unwrap()).into(), Box::new(|| None))
+        }
+        "altroot.overlay" => {
+            let (u, l): (VfsPath, VfsPath) = (MemoryFS::new().into(), MemoryFS::new().into());
+            let ov: VfsPath = OverlayFS::new(&[u, l]).into();
+            ov.join("r").unwrap().create_dir().unwrap();
+            (AltrootFS::new(ov.join("r").unwrap()).into(), Box::new(|| None))
+        }
+        "overlay.altroot" => {
+            let (m1, m2): (VfsPath, VfsPath) = (MemoryFS::new().into(), MemoryFS::new().into());
+            m1.join("u").unwrap().create_dir().unwrap(); m2.join("l").unwrap().create_dir().unwrap();
+            let (u, l): (VfsPath, VfsPath) = (AltrootFS::new(m1.join("u").unwrap()).into(), AltrootFS::new(m2.join("l").unwrap()).into());
+            let l2 = l.clone();
+            (OverlayFS::new(&[u, l]).into(), Box::new(move || { if l2.read_dir().unwrap().count() != 0 { Some("lower layer is no longer empty".into()) } else { None } }))
+        }
+        "overlay.nested" => {
+            let (a, b, c): (VfsPath, VfsPath, VfsPath) = (MemoryFS::new().into(), MemoryFS::new().into(), MemoryFS::new().into());
+            let inner: VfsPath = OverlayFS::new(&[a, b]).into();
+            let c2 = c.clone();
+            (OverlayFS::new(&[inner, c]).into(), Box::new(move || { if c2.read_dir().unwrap().count() != 0 { Some("lowest layer is no longer empty".into()) } else { None } }))
+        }
+        "overlay4" => {
+            let ls: Vec<VfsPath> = (0..4).map(|_| MemoryFS::new().into()).collect();
+            let lows: Vec<VfsPath> = ls[1..].to_vec();
+            (OverlayFS::new(&ls).into(), Box::new(move || { if lows.iter().any(|l| l.read_dir().unwrap().count() != 0) { Some("a lower layer is no longer empty".into()) } else { None } }))
+        }
         "physical" => {
             use std::sync::atomic::{AtomicU64, Ordering};
             static N: AtomicU64 = AtomicU64::new(0);
@@ -1082,6 +1113,7 @@ fn main() {
             "tree.memory" => oracle_tree("memory", if deep { 3 } else { 2 }, deep),
             "tree.altroot" => oracle_tree("altroot", if deep { 3 } else { 2 }, deep),
             "tree.overlay" => oracle_tree("overlay", 2, false),
+            "tree.stack" => ["altroot.altroot", "altroot.overlay", "overlay.altroot", "overlay.nested", "overlay4"].iter().fold(true, |ok, k| oracle_tree(k, 2, deep) && ok),
             "tree.physical" => oracle_tree("physical", 2, false),
             "composite.physical" => oracle_tree("physical", 2, true),
             "composite.memory" => oracle_tree("memory", 2, true),
